@@ -109,11 +109,32 @@ def arg_converters():
     return conv
 
 
+def ref_to_cel(d: Any) -> Any:
+    """the CEL value of a JSON document, by kind — the oracle's own conversion (adapter.json_to_cel is part of the code under
+    test here: a conversion that carries state between documents breaks line independence)"""
+    from celpy import celtypes as ct
+    if d is None:
+        return None
+    if d is True or d is False:
+        return ct.BoolType(d)
+    if type(d) is int:
+        return ct.IntType(d)
+    if type(d) is float:
+        return ct.DoubleType(d)
+    if type(d) is str:
+        return ct.StringType(d)
+    if type(d) is list:
+        return ct.ListType([ref_to_cel(x) for x in d])
+    if type(d) is dict:
+        return ct.MapType({ct.StringType(k): ref_to_cel(v) for k, v in d.items()})
+    raise TypeError(type(d))
+
+
 def analyse(c: Dict[str, Any]) -> Dict[str, Any]:
     """argsOk / compiles / per-line outcome tokens and texts, through Environment / program / evaluate"""
     import celpy
     from celpy import celtypes as ct
-    from celpy.adapter import json_to_cel, CELJSONEncoder
+    from celpy.adapter import CELJSONEncoder
     from celpy.evaluation import CELEvalError
     res: Dict[str, Any] = {"argsOk": True, "compiles": True, "loc": "-", "tokens": [], "texts": {}, "var": "jq"}
     pd = c.get("pd")
@@ -155,6 +176,10 @@ def analyse(c: Dict[str, Any]) -> Dict[str, Any]:
         res["compiles"] = False
         res["loc"] = f"{ex.line}:{ex.column}"
         return res
+    except Exception as ex:  # noqa  -- compile()/program() let something else escape: the model has no say, the oracle decides
+        res["compiles"] = False
+        res["compile_escape"] = type(ex).__name__
+        return res
 
     def outcome(act: Dict[str, Any], i: int) -> str:
         env, prog = fresh()           # a fresh environment and program for every document
@@ -184,7 +209,7 @@ def analyse(c: Dict[str, Any]) -> Dict[str, Any]:
             res["tokens"].append("M")
             continue
         try:
-            v = json_to_cel(doc)
+            v = ref_to_cel(doc)
         except Exception as ex:  # noqa
             res["tokens"].append("X:" + type(ex).__name__)
             continue
@@ -247,7 +272,10 @@ NULL_OTHER = ["1 + 2", "6 * 7", "7 / 2", "-7 % 3", "\"a\" + \"b\"", "[1, 2] + [3
               "\"x\"", "[]", "[[1], []]", "1 / 0", "[1][3]", "9223372036854775807 + 1", "1 > 0 ? \"y\" : \"n\"", "3u + 4u", "1.5", "2.0 * 3.0", "null",
               "{\"a\": 1}", "{}.a", "int(\"12\")", "string(42)", "\"\\u00e9\"", "b\"abc\"", "duration(\"90s\")", "timestamp(\"2020-01-02T03:04:05Z\")", "-(-9223372036854775807 - 1)"]
 SYNTAX_ERRORS = ["1 +", "(1", "1 2", "[1,", "a b", ".a ..b", "1 ? 2", "\"open", "{1:}", "1 + * 2", ")", "", " ", "x.", "1 +\n", "a.map(", "&& true", "1 = 2", "'a' 'b'", "[1, 2,, 3]",
-                 "true &&\n  (1 <", "f(,)"]
+                 "true &&\n  (1 <", "f(,)",
+                 # lexer level: characters no terminal starts with, unterminated literals
+                 "1 + @", "#", "$", "`", "|", "1 | 2", "1 & 2", "a $ b", "~1", "1 + \\", "'open", "\"unterminated\\\"", "b\"open", "r'open",
+                 "\"\"\"never closed", ".a @ .b", "1 ^ 2", "x = = 1", "1 + \u00e9@"]
 
 ARG_SAMPLES = [
     ("int", ["5", "-3", "0", "9223372036854775807", "0x10"]), ("uint", ["5", "0", "18446744073709551615"]), ("double", ["1.5", "-0.0", "1e10", "3"]),
@@ -334,7 +362,7 @@ class C20(Prop):
         self._cache: Dict[str, Dict[str, Any]] = {}
 
     def _an(self, c):
-        k = json.dumps({x: c[x] for x in c if not x.startswith("_") and x != "sub"}, sort_keys=True, default=str)
+        k = json.dumps({x: c[x] for x in c if not x.startswith("_") and x not in ("sub", "solo")}, sort_keys=True, default=str)
         if k not in self._cache:
             if len(self._cache) > 20000:
                 self._cache.clear()
@@ -374,6 +402,17 @@ class C20(Prop):
             if args and rng.random() < 0.5 and args[0][1] in ("int", "int64_value"):
                 e = f"({e}) == ({e}) && v0 == v0" if rng.random() < 0.3 else e
             cases.append({"kind": "stream", "mode": "j", "b": b, "pd": pd, "expr": e, "args": args, "stdin": gen_stream(rng, n)})
+        # equal-valued scalars of different kinds (true / 1 / 1.0, false / 0 / 0.0 / -0.0) at the same path of different lines, both
+        # orders: anything that carries converted values from one document to the next (a cache keyed by ==/hash) shows here
+        twins = [(0.0, False), (1.0, True), (0.0, -0.0), (1, True), (0, False), (1, 1.0), (0, 0.0), (0, -0.0), ("1", 1), ("", False)]
+        k = 0
+        for x, y in twins:
+            for u, v in ((x, y), (y, x)):
+                for shape, e in ((lambda z: {"a": z}, ".a"), (lambda z: {"a": [z, {"k": z}]}, ".a[1].k"), (lambda z: z, "jq"),
+                                 (lambda z: {"a": z}, ".a == .a ? .a : .a")):
+                    k += 1
+                    text = json.dumps(shape(u)) + "\n" + json.dumps(shape(v)) + "\n" + (json.dumps(shape(u)) + "\n" if k % 2 else "")
+                    cases.append({"kind": "stream", "mode": "j", "b": k % 3 == 0, "pd": None, "expr": e, "args": [], "stdin": text, "solo": True})
         # slurp
         for i in range(150 if quick else 3000):
             pd = rng.choice([None, None, ["p", "pk"], ["d", "doc"]])
@@ -393,6 +432,8 @@ class C20(Prop):
         picked = []
         for kind, k in (("null", 2), ("syntax", 1), ("arg", 1), ("badarg", 1), ("usage", 1), ("stream", 3), ("slurp", 1)):
             picked += [c for c in pool if c["kind"] == kind][:k if quick else 8 * k]
+        solos = [c for c in cases if c.get("solo") and c["expr"] == ".a"]
+        picked += [solos[i] for i in ((0, 1) if quick else range(0, len(solos), 2)) if i < len(solos)]
         for c in picked:
             d = dict(c)
             d["sub"] = True
@@ -409,6 +450,8 @@ class C20(Prop):
     # ---- model ---------------------------------------------------------------------------------------------
     def model_line(self, c):
         an = self._an(c)
+        if an.get("compile_escape"):
+            return None
         toks = an["tokens"] if (an["argsOk"] and an["compiles"]) else (["T"] if c["mode"] != "j" else [])
         if c["mode"] in ("n", "s") and len(toks) != 1:
             return None
@@ -437,6 +480,13 @@ class C20(Prop):
         where = f"argv={argv_of(c)!r} stdin={c.get('stdin', '')[:120]!r}"
         if not an["argsOk"]:
             return None                                 # rejected command lines: the statement is silent (model: 2)
+        if c["kind"] == "syntax" and status.startswith("raise "):
+            return f"syntax error in {c['expr']!r}: {status[6:]} escaped from main() instead of status 1 with a located message ({where})"
+        if an.get("compile_escape"):
+            return (f"compiling {c['expr']!r} through the library API raises {an['compile_escape']} (not CELParseError); the CLI gave status {status}; "
+                    f"a syntax error must exit 1 with a message locating it, a valid expression must be evaluated ({where})")
+        if c["kind"] == "syntax" and an["compiles"]:
+            return f"{c['expr']!r} is not valid CEL but was accepted by compile() ({where})"
         if not an["compiles"]:
             if status != "1":
                 return f"syntax error in {c['expr']!r} gave status {status}, expected 1 ({where})"
@@ -452,6 +502,8 @@ class C20(Prop):
         toks = an["tokens"]
         if any(t.startswith(("R:", "X:")) for t in toks):
             return None                                 # a non-CEL exception: outside the stated fragment
+        if status.startswith("raise "):
+            return f"{status[6:]} escaped from main() although every document evaluates to a value or a CEL error through the library API ({where})"
         text = lambda t: {"T": "true", "F": "false", "E": "null"}.get(t, an["texts"].get(t))
         if c["mode"] == "n":
             t = toks[0]
@@ -487,7 +539,7 @@ class C20(Prop):
         elif not status.isdigit() or int(status) < worst or (worst == 3 and status != "3"):
             return f"status {status} is below the worst specified per-document status {worst} ({where})"
         # line independence, directly on the implementation: each line alone through main()
-        if c["mode"] == "j" and len(toks) >= 2 and not c.get("sub") and (c.get("_corpus") or zlib.crc32(c["stdin"].encode()) % 3 == 0):
+        if c["mode"] == "j" and len(toks) >= 2 and not c.get("sub") and (c.get("_corpus") or c.get("solo") or zlib.crc32(c["stdin"].encode()) % 3 == 0):
             cat: List[str] = []
             sts: List[int] = []
             for t in split_lines(c["stdin"]):
